@@ -815,6 +815,12 @@ def run_corpus(n_registry, seed, tier, overrides=None, procs=None, extras=True, 
     finally:
         pool.terminate()
         pool.join()
+    seen = {}
+    for r in out:          # the registry has a few testcases whose generated double-precision twin takes an existing name
+        k = r["key"]
+        seen[k] = seen.get(k, 0) + 1
+        if seen[k] > 1:
+            r["key"] = f"{k}~{seen[k]}"
     return out
 
 
@@ -922,7 +928,7 @@ def tie_translated(ctx):
     from jax2onnx.converter import ir_optimizations as opt
     from jax2onnx.converter import ir_postprocess as post
     rng = ctx.rng
-    n_rand = 400 if ctx.tier == "quick" else 6000
+    n_rand = 400 if ctx.tier == "quick" else 3000
     # ---- _broadcast_shape_dims: all pairs of shapes up to rank 2, all triples of rank-1 shapes, random up to rank 3
     sh2 = _all_shapes(2)
     sh3 = _all_shapes(3)
@@ -1017,7 +1023,7 @@ def tie_refresh(ctx, skip):
         for b in pool:
             for out in (None, (7, 7)):
                 cases.append(("Add", [a, b], out))
-    for _ in range(300 if ctx.tier == "quick" else 3000):
+    for _ in range(300 if ctx.tier == "quick" else 1500):
         cases.append((rng.choice(["Max", "Min", "Clip"]), [rng.choice(pool) for _ in range(3)], rng.choice([None, (7,), (1, 7)])))
     for a in pool:
         cases.append(("Relu", [a], (5,)))
@@ -1074,7 +1080,7 @@ def tie_loosen(ctx):
     rng = ctx.rng
     shapes = [None, (), (3,), ("B",), (None,), (2, 3), ("B", 3), (None, "C"), (2, 1, 3)]
     items = []
-    n = 160 if ctx.tier == "quick" else 1500
+    n = 160 if ctx.tier == "quick" else 600
     changed = 0
     for k in range(n):
         force = bool(k % 2)
@@ -1192,7 +1198,7 @@ def run(ctx):
             ctx.assumptions.append("refresh witness through optimize_graph could not be replayed: " + traceback.format_exc()[-300:])
 
     # ---- (b) + (c) on real exports
-    n_reg = 60 if ctx.tier == "quick" else 500
+    n_reg = 60 if ctx.tier == "quick" else 400
     t0 = time.time()
     results = run_corpus(n_reg, ctx.seed, ctx.tier)
     t_corpus = time.time() - t0
